@@ -15,7 +15,10 @@ class RLVParser:
     def is_rlv_message(msg: Message) -> bool:
         chat: str = msg["ChatData"]["Message"]
         chat_type: int = msg["ChatData"]["ChatType"]
-        return chat and chat.startswith("@") and chat_type == ChatType.OWNER
+        # Text that couldn't be decoded comes through as bytes, that's never an RLV command.
+        if not isinstance(chat, str):
+            return False
+        return bool(chat) and chat.startswith("@") and chat_type == ChatType.OWNER
 
     @staticmethod
     def parse_chat(chat: str) -> List[RLVCommand]:
